@@ -30,20 +30,22 @@ type c11Stream struct {
 }
 
 type c11Scenario struct {
-	Container string      `json:"container"`
-	Total     int         `json:"total"`
-	Type      string      `json:"type"`                 // "" | VOD | EVENT
-	URIStyle  string      `json:"uri_style"`            // rel | subdir | up | abs | query
-	Range     string      `json:"range"`                // none | explicit | nostart | continued | mixed
-	DiscSeq   bool        `json:"disc_seq,omitempty"`   // playlists carry EXT-X-DISCONTINUITY-SEQUENCE (unrelated to the media sequence)
-	PLQuery   bool        `json:"pl_query,omitempty"`   // playlist URLs carry a query string (token)
-	RangeMask int         `json:"range_mask,omitempty"` // mixed: bit (segment index % 16) set = that sub-range is written without offset
-	MSNBase   int         `json:"msn_base"`
-	Multi     bool        `json:"multi"`
-	LL        bool        `json:"ll"`
-	SkipUntil bool        `json:"skip_until"`
-	SubDirs   bool        `json:"sub_dirs"` // multivariant: variant and rendition playlists live in sub-directories
-	Streams   []c11Stream `json:"streams"`  // [0] = leading
+	Container    string      `json:"container"`
+	Total        int         `json:"total"`
+	Type         string      `json:"type"`                    // "" | VOD | EVENT
+	URIStyle     string      `json:"uri_style"`               // rel | subdir | up | abs | query
+	Range        string      `json:"range"`                   // none | explicit | nostart | continued | mixed
+	BigOffset    bool        `json:"big_offset,omitempty"`    // byte ranges lie beyond 4 GiB of their resource
+	EndlistEarly bool        `json:"endlist_early,omitempty"` // EXT-X-ENDLIST is written before the last segment entry, not at the end
+	DiscSeq      bool        `json:"disc_seq,omitempty"`      // playlists carry EXT-X-DISCONTINUITY-SEQUENCE (unrelated to the media sequence)
+	PLQuery      bool        `json:"pl_query,omitempty"`      // playlist URLs carry a query string (token)
+	RangeMask    int         `json:"range_mask,omitempty"`    // mixed: bit (segment index % 16) set = that sub-range is written without offset
+	MSNBase      int         `json:"msn_base"`
+	Multi        bool        `json:"multi"`
+	LL           bool        `json:"ll"`
+	SkipUntil    bool        `json:"skip_until"`
+	SubDirs      bool        `json:"sub_dirs"` // multivariant: variant and rendition playlists live in sub-directories
+	Streams      []c11Stream `json:"streams"`  // [0] = leading
 }
 
 func drawHistory(t *rapid.T, total int, ll bool, label string) c11Stream {
@@ -122,6 +124,10 @@ func drawC11(t *rapid.T) c11Scenario {
 	sc.Range = rapid.SampledFrom([]string{"none", "none", "explicit", "nostart", "continued", "mixed"}).Draw(t, "range")
 	sc.PLQuery = rapid.IntRange(0, 3).Draw(t, "plQuery") == 0
 	sc.DiscSeq = rapid.IntRange(0, 3).Draw(t, "discSeq") == 0
+	sc.EndlistEarly = rapid.IntRange(0, 2).Draw(t, "endlistEarly") == 0
+	if sc.Range == "explicit" || sc.Range == "continued" || sc.Range == "mixed" {
+		sc.BigOffset = rapid.IntRange(0, 2).Draw(t, "bigOffset") == 0
+	}
 	if sc.Range == "mixed" {
 		sc.RangeMask = rapid.IntRange(1, 1<<16-1).Draw(t, "rangeMask")
 	}
@@ -287,6 +293,20 @@ func execC11(sc c11Scenario) core.Outcome {
 		return bu.ResolveReference(ru).String()
 	}
 	all := append([]*cli.BuiltPlaylist{b.Lead}, b.Renditions...)
+	const bigBase = uint64(5_000_000_000)
+	if sc.BigOffset {
+		for _, bp := range all {
+			if !bp.Def.ByteRange {
+				continue
+			}
+			for i := range bp.SegRanges {
+				bp.SegRanges[i][0] += bigBase
+			}
+			if bp.InitURI != "" {
+				bp.InitRange[0] += bigBase
+			}
+		}
+	}
 	type plInfo struct {
 		url   string
 		bp    *cli.BuiltPlaylist
@@ -313,11 +333,19 @@ func execC11(sc c11Scenario) core.Outcome {
 		for i, u := range bp.SegURIs {
 			newURIs[i] = rewrite(u)
 			ru, _ := url.Parse(resolve(plURL, newURIs[i]))
-			srv.AddFile(strings.TrimPrefix(ru.Path, "/"), b.Files[u])
+			if sc.BigOffset && bp.Def.ByteRange {
+				srv.AddFileAt(strings.TrimPrefix(ru.Path, "/"), b.Files[u], bigBase)
+			} else {
+				srv.AddFile(strings.TrimPrefix(ru.Path, "/"), b.Files[u])
+			}
 		}
 		if bp.InitURI != "" {
 			ru, _ := url.Parse(resolve(plURL, rewrite(bp.InitURI)))
-			srv.AddFile(strings.TrimPrefix(ru.Path, "/"), b.Files[bp.InitURI])
+			if sc.BigOffset && bp.Def.ByteRange {
+				srv.AddFileAt(strings.TrimPrefix(ru.Path, "/"), b.Files[bp.InitURI], bigBase)
+			} else {
+				srv.AddFile(strings.TrimPrefix(ru.Path, "/"), b.Files[bp.InitURI])
+			}
 		}
 		orig := *bp
 		cp := orig
@@ -374,6 +402,13 @@ func execC11(sc c11Scenario) core.Outcome {
 					sb.WriteString(l)
 				}
 				txt = sb.String()
+			}
+			if sc.EndlistEarly && sn.Endlist && strings.HasSuffix(txt, "#EXT-X-ENDLIST\n") {
+				// the tag may appear anywhere in the playlist (RFC 8216 4.3.3.4)
+				if k := strings.LastIndex(txt, "#EXTINF:"); k >= 0 {
+					txt = strings.TrimSuffix(txt, "#EXT-X-ENDLIST\n")
+					txt = txt[:k] + "#EXT-X-ENDLIST\n" + txt[k:]
+				}
 			}
 			if sn.Hint >= 0 {
 				txt += fmt.Sprintf("#EXT-X-PRELOAD-HINT:TYPE=PART,URI=\"%s\"\n", newURIs[sn.Hint])
